@@ -255,7 +255,12 @@ fn eval(case: &J) -> Eval {
 					}
 				} else {
 					ev.count("fault_not_reached", 1);
-					if v.kind() != bv.kind() || o.out != base.out {
+					// A planned fault that xt never runs into still shortens the read that ends at
+					// offset k. For a translation that succeeds that must not matter at all; for one
+					// that fails anyway only C02's weaker clause holds (partial outputs are
+					// prefix-comparable).
+					let same = if bv.is_ok() { o.out == base.out } else { prefix_comparable(&o.out, &base.out) };
+					if v.kind() != bv.kind() || !same {
 						ev.violate(format!("rfail/unreached-differs/{tag}"), format!("k={k}: fault was never reached but result differs from the fault-free twin: {} vs {}, outputs {:?} vs {:?}", v.kind(), bv.kind(), show(&o.out), show(&base.out)));
 					}
 				}
